@@ -13,6 +13,9 @@ use std::io;
 use std::io::Write;
 use std::os::unix::net::UnixDatagram;
 use std::path::{Path, PathBuf};
+#[cfg(cadence_verif)]
+use crate::verif::sync::Mutex;
+#[cfg(not(cadence_verif))]
 use std::sync::Mutex;
 
 use crate::io::MultiLineWriter;
